@@ -247,7 +247,22 @@ def gen_roundtrip_cases(ctx):
         f = gen_secured(rng, mgr, lvl=[0, 5, 6, 7, 1, 2, 3, 5][i % 8], n=[0, 1, 2, 3, 6, 7, 8, 9, 20, 40][i % 10], ext=0)
         add(f, rb(rng, 16), aps_input_for(rng, f.kt) if mgr == "aps" else None,
             "bytes" if f.lvl == 0 or i % 3 else "built", "bytes", "no-ext")
-    return cases
+    # sequences through ONE manager instance: frames of one key, on-air level 0 and explicit levels interleaved
+    seq_plans = []
+    for si in range(24 if ctx.thorough else 6):
+        mgr = "aps" if si % 3 == 2 else "nwk"
+        key = rb(rng, 16)
+        kt = rng.choice([0, 2, 3]) if mgr == "aps" else None
+        inp = aps_input_for(rng, kt) if mgr == "aps" else None
+        idx = []
+        for j in range(rng.randrange(5, 9)):
+            lvl = 0 if j % 2 == (si % 2) else rng.choice([5, 5, 6, 7, 6, 7, 1, 2, 3, 4] if rng.random() < 0.35 else [5, 6, 7])
+            f = gen_secured(rng, mgr, lvl=lvl, kt=kt, n=rng.choice([0, 1, 3, 5, 8, 17, 40]), ext=0 if rng.random() < 0.05 else 1)
+            conv = "bytes" if lvl == 0 else rng.choice(["built", "built", "bytes", "built-mic"])
+            idx.append(len(cases))
+            add(f, key, inp, conv, "bytes", "seq-item")
+        seq_plans.append({"mgr": mgr, "key": key.hex(), "inp": inp, "idx": idx})
+    return cases, seq_plans
 
 
 def flips_for(rng, frame_hex, low, nbits=None):
@@ -535,7 +550,7 @@ def run(ctx):
     nviol = 0
 
     # ---- phase 1: encrypt + round trip on the real code ---------------------------------
-    rt_cases = gen_roundtrip_cases(ctx)
+    rt_cases, seq_plans = gen_roundtrip_cases(ctx)
     plans = gen_history_plans(ctx)
     plan_cases = []
     for p in plans:
@@ -724,7 +739,22 @@ def run(ctx):
         sched = aps_schedule(rng, p, encs)
         aps_reqs.append({"map": p["map"], "kps": p["kps"], "frames": [f for f, _k, _i in sched]})
         aps_sched.append((p, sched))
-    req2 = {"crypt": tam_cases, "nwk": hist_reqs, "aps": aps_reqs}
+    # one manager instance per plan: the encrypt calls of its frames and the decrypt calls of what a FRESH manager produced
+    # for them in phase 1, interleaved; every call must give what the fresh manager gave (reference = phase 1)
+    seq_reqs, seq_refs = [], []
+    for sp in seq_plans:
+        calls, refs = [], []
+        for i in sp["idx"]:
+            c, st = rt_cases[i], res_rt[i]
+            calls.append({"op": "enc", "frame": c["frame"], "set": c["set"], "via": c["steps"][0]["via"]}); refs.append((i, 0))
+        decs = [({"op": "dec", "frame": res_rt[i][0]["out_frame"], "set": None, "via": "bytes"}, (i, 1))
+                for i in sp["idx"] if "exc" not in res_rt[i][0] and len(res_rt[i]) > 1]
+        for k, (dc, ref) in enumerate(decs):       # spread the decrypts over the sequence
+            pos = rng.randrange(0, len(calls) + 1)
+            calls.insert(pos, dc); refs.insert(pos, ref)
+        seq_reqs.append({"mgr": sp["mgr"], "key": sp["key"], "inp": sp["inp"], "calls": calls})
+        seq_refs.append(refs)
+    req2 = {"crypt": tam_cases, "nwk": hist_reqs, "aps": aps_reqs, "seq": seq_reqs}
     r2 = C.run_impl("C17.py", req2)
     ctx.log("phase 2: %d tampered/wrong-key decrypts, %d NWK histories (%d frames)" % (len(tam_cases), len(hist_reqs), sum(len(h["frames"]) for h in hist_reqs)))
 
@@ -810,6 +840,43 @@ def run(ctx):
             nontrivial.append(["hist", cfg, hreq["frames"]])
     dist["nwk_history_events"] = hdist
 
+    # oracle: one manager instance — the result of each call must not depend on the calls made before
+    seq_terms = []
+    sdist = {"calls": 0, "enc": 0, "dec": 0, "after-level0-call": 0, "explicit-after-level0": 0, "raised": 0}
+    for q, refs, outs in zip(seq_reqs, seq_refs, r2["seq"]):
+        items, modelable, prev_l0 = [], True, False
+        for k, (c, (i, which), o) in enumerate(zip(q["calls"], refs, outs)):
+            ref = res_rt[i][which]
+            case = {"op": "seq", "seq": q, "call": k}
+            sdist["calls"] += 1; sdist[c["op"]] += 1
+            lvl = o.get("in", {}).get("lvl")
+            if prev_l0:
+                sdist["after-level0-call"] += 1
+                if lvl not in (0, None):
+                    sdist["explicit-after-level0"] += 1
+            prev_l0 = (lvl == 0)
+            if "exc" in o:
+                sdist["raised"] += 1
+            same = (o.get("exc") == ref.get("exc") and o.get("status") == ref.get("status") and o.get("out_frame") == ref.get("out_frame")
+                    and (("out" not in o and "out" not in ref) or ("out" in o and "out" in ref and same_dis(o["out"], ref["out"]))))
+            if not same:
+                nviol += ctx.violation("a call on a reused manager instance does not give the result of a fresh manager (it depends on the frames processed before)",
+                                       case, expected={k_: ref.get(k_) for k_ in ("exc", "status", "out_frame")},
+                                       observed={k_: o.get(k_) for k_ in ("exc", "status", "out_frame", "patched_after")})
+            if "in" in o and in_model(o["in"]) and ("out" not in o or in_model(o["out"])):
+                d_in = o["in"]
+                if "exc" in o:
+                    ob = "(Some %s, None, %s)" % (cstr(o["exc"]), coq_frame(d_in))
+                else:
+                    ob = "(None, %s, %s)" % ("None" if o["status"] is None else "(Some %s)" % cbool(o["status"]), coq_frame(o["out"]))
+                items.append("(%s, %s, %s, %s)" % (cbool(c["op"] == "enc"), coq_frame(d_in), cbytes(bytes.fromhex(d_in["raw"])), ob))
+            else:
+                modelable = False
+        if modelable and outs and "key_used" in outs[0]:
+            seq_terms.append("(%s, %s)" % (cbytes(bytes.fromhex(outs[0]["key_used"])), clist(items)))
+            nontrivial.append(["seq", q])
+    dist["instance_sequences"] = sdist
+
     # oracle + observation: APS receive histories (EXTENSION)
     aps_terms_h = []
     adist = {"genuine-delivered": 0, "replay-delivered (no freshness at this layer: observation)": 0, "dropped-not-authentic": 0,
@@ -873,18 +940,21 @@ def run(ctx):
             bad_k.append(-1)
     bad_a, logs_a = C.run_cases(PID, "apsdata", PRE, "bytes * N * bytes * bytes * option string", aps_terms, "check_aps_data")
     bad_k += ["aps-data:%d" % i for i in bad_a]
+    bad_sq, logs_sq = C.run_cases(PID, "seq", PRE, "bytes * list (bool * frame * bytes * obs)", seq_terms, "check_calls", shard=4)
+    bad_k += ["instance-sequence:%d" % i for i in bad_sq]
     bad_ah, logs_ah = C.run_cases(PID, "apshist", PRE, "aps * list (nsdu * obs_aps)", aps_terms_h, "check_aps", shard=8)
     bad_k += ["aps-history:%d" % i for i in bad_ah]
     bad_n, logs_n = C.run_cases(PID, "nwk", PRE, "nwk * list (npdu * obs_up * list (N * list (bytes * N)))", hist_terms, "check_nwk", shard=8)
     ctx.notes += logs_c[:2] + logs_h[:1] + logs_k[:1] + logs_n[:2]
-    ctx.log("correspondence: crypt %d cases %d bad; hash %d/%d bad %d/%d; nwk histories %d bad %d; aps histories %d bad %d"
-            % (len(crypt_terms), len(bad_c), len(hk_terms), len(hkk_terms), len(bad_h), len(bad_k), len(hist_terms), len(bad_n), len(aps_terms_h), len(bad_ah)))
+    ctx.log("correspondence: crypt %d cases %d bad; hash %d/%d bad %d/%d; nwk histories %d bad %d; aps histories %d bad %d; instance sequences %d bad %d"
+            % (len(crypt_terms), len(bad_c), len(hk_terms), len(hkk_terms), len(bad_h), len(bad_k), len(hist_terms), len(bad_n), len(aps_terms_h), len(bad_ah),
+               len(seq_terms), len(bad_sq)))
 
     # ---- evidence -------------------------------------------------------------------------------
     n_eval = (len(rt_cases) + len(plan_cases) + len(aps_plan_cases) + len(tam_cases) + sum(len(h["frames"]) for h in hist_reqs)
-              + sum(len(h["frames"]) for h in aps_reqs) + len(hash_cases))
+              + sum(len(h["frames"]) for h in aps_reqs) + sum(len(q["calls"]) for q in seq_reqs) + len(hash_cases))
     ctx.cov["evaluations"] = n_eval
-    ctx.cov["traces_validated_against_impl"] = len(crypt_terms) + len(hk_terms) + len(hkk_terms) + len(hist_terms) + len(aps_terms_h)
+    ctx.cov["traces_validated_against_impl"] = len(crypt_terms) + len(hk_terms) + len(hkk_terms) + len(hist_terms) + len(aps_terms_h) + len(seq_terms)
     ctx.cov["distinct_nontrivial"] = C.distinct_count(nontrivial)
     ctx.cov["rule"] = ("round-trip cases: NWK data/command and APS data/command/key-transport/key-load frames, levels 0 (on-air) and 5..7, both dissection "
                        "conventions (dissected bytes / stack-built packet), payload lengths 0..80 with contents random or taken from the header; tamper cases: every "
@@ -909,7 +979,8 @@ def run(ctx):
                               C.source_tie("whad/zigbee/stack/nwk/security.py", 1, 36)]
     ctx.cov["correspondence"] = {"crypt_cases": len(crypt_terms), "crypt_bad": len(bad_c), "hash_cases": len(hk_terms) + len(hkk_terms),
                                  "hash_bad": len(bad_h) + len(bad_k), "nwk_histories": len(hist_terms), "nwk_bad": len(bad_n),
-                                 "aps_histories": len(aps_terms_h), "aps_bad": len(bad_ah)}
+                                 "aps_histories": len(aps_terms_h), "aps_bad": len(bad_ah),
+                                 "instance_sequences": len(seq_terms), "instance_sequences_bad": len(bad_sq)}
 
     # ---- verdict ------------------------------------------------------------------------------------
     if bad_c or bad_h or bad_k or bad_n or not proofs_ok:
@@ -945,6 +1016,11 @@ def replay(payload):
     elif case.get("op") == "aps-data-request":
         r = C.run_impl("C17.py", {"aps_data": [case["aps_data"]]})
         print("implementation now:", r["aps_data"][0])
+    elif case.get("op") == "seq":
+        r = C.run_impl("C17.py", {"seq": [case["seq"]]})
+        for k, st in enumerate(r["seq"][0]):
+            print("call %d%s: %s lvl=%s exc=%s status=%s out=%s patched_after=%s" % (k, " <--" if k == case.get("call") else "", case["seq"]["calls"][k]["op"],
+                  st.get("in", {}).get("lvl"), st.get("exc"), st.get("status"), st.get("out_frame"), st.get("patched_after")))
     elif case.get("op") == "aps-history":
         r = C.run_impl("C17.py", {"aps": [{"map": case["map"], "kps": case["kps"], "frames": case["frames"]}]})
         for k, st in enumerate(r["aps"][0]):
